@@ -430,10 +430,9 @@ class C04(WorldCheck):
             "conversion was checked at an evaluation event")
     assumptions = ["per-evaluation comparison only in worlds without solver scaling (root vectors hold physical values)",
                    "Jacobi sweeps are compared with the source values at the sweep's transfer",
-                   "index forms exercised: full, flat list, flat slice, negative-step slice, tuple, ellipsis "
-                   "(see DESIGN for the forms excluded because of recorded findings)"]
-    knobs = dict(forms=['full', 'list', 'slice', 'negslice', 'tuple', 'ellipsis', 'int_pos'], temps=True, groups=0.6,
-                 promote=0.5, auto_ivc=0.3)
+                   "index forms exercised: full, flat int list (incl. negative), flat slice (incl. negative step), int, "
+                   "tuple, ellipsis, non-flat int list into multi-dimensional sources"]
+    knobs = dict(forms=spec.FORMS_ALL, temps=True, groups=0.6, promote=0.5, auto_ivc=0.3)
 
     def world_knobs(self, rng):
         k = dict(self.knobs)
